@@ -234,12 +234,30 @@ def bounded_seq(which):
     r = rng.uniform(0.05, 0.95, shp)
     t = rng.uniform(-3, 3, shp)
     if which in ('zernike_nm_seq', 'zernike_nm_der_seq', 'Q2d_seq'):
+        style = str(rng.choice(['random', 'all-m0-shuffled', 'same-absm', 'descending-n', 'with-duplicates']))
         nms = []
-        while len(nms) < nmodes:
+        guard = 0
+        while len(nms) < nmodes and guard < 200:
+            guard += 1
             n = int(rng.integers(0, 9))
-            m = int(rng.choice(range(-n, n + 1, 2))) if which != 'Q2d_seq' else int(rng.integers(-4, 5))
-            if (n, m) not in nms:
+            if which == 'Q2d_seq':
+                m = int(rng.integers(-4, 5))
+            else:
+                m = int(rng.choice(range(-n, n + 1, 2)))
+            if style == 'all-m0-shuffled':
+                n = 2 * int(rng.integers(0, 5))
+                m = 0
+            elif style == 'same-absm' and which != 'Q2d_seq':
+                am = 1 + int(rng.integers(0, 2))
+                n = am + 2 * int(rng.integers(0, 4))
+                m = am if rng.random() < 0.5 else -am
+            if style == 'with-duplicates' or (n, m) not in nms:
                 nms.append((n, m))
+        if style == 'descending-n':
+            nms.sort(key=lambda p: -p[0])
+        elif style in ('all-m0-shuffled', 'same-absm'):
+            rng.shuffle(nms)
+            nms = [tuple(int(v) for v in p) for p in nms]
         if which == 'zernike_nm_seq':
             seq = get('prysm.polynomials.zernike.zernike_nm_seq')(nms, r, t)
             one = [get('prysm.polynomials.zernike.zernike_nm')(n, m, r, t) for n, m in nms]
